@@ -78,3 +78,10 @@ Proof. vm_compute. reflexivity. Qed.
 Definition reg_key : N -> N := key_of reg_rows.
 Definition reg_back : N -> N := back_of reg_rows.
 Definition registry_facts := table_facts reg_rows reg_count reg_check_ok.
+
+(* the biome names: the same check on the second table *)
+Lemma bio_check_ok : table_check bio_rows bio_count = true.
+Proof. vm_compute. reflexivity. Qed.
+Definition bio_key : N -> N := key_of bio_rows.
+Definition bio_back : N -> N := back_of bio_rows.
+Definition biome_facts := table_facts bio_rows bio_count bio_check_ok.
